@@ -114,7 +114,39 @@ def render(sites):
     return '\n'.join(L) + '\n'
 
 
+HASHALG_RS = 'core/src/types/hashalgorithm.rs'
+
+
+def extract_hash_algorithms():
+    """[(variant, strum to_string, strum serialize)] of `pub enum HashAlgorithm`"""
+    code = strip_comments(open(os.path.join(REPO, HASHALG_RS)).read())
+    m = re.search(r'pub\s+enum\s+HashAlgorithm\s*\{(.*?)\n\}', code, re.S)
+    if not m:
+        raise RuntimeError(f'translator anchor `pub enum HashAlgorithm` not found in {HASHALG_RS}')
+    body = m.group(1)
+    variants = re.findall(r'^\s*([A-Z][A-Za-z0-9_]*)\s*,', body, re.M)
+    annotated = re.findall(r'#\[strum\(\s*to_string\s*=\s*"([^"]*)"\s*,\s*serialize\s*=\s*"([^"]*)"\s*\)\]\s*([A-Z][A-Za-z0-9_]*)\s*,', body)
+    if not variants or [v for _, _, v in annotated] != variants:
+        raise RuntimeError(f'translator: variants {variants} of HashAlgorithm do not all carry #[strum(to_string = …, serialize = …)] in {HASHALG_RS}')
+    return [(v, t, z) for t, z, v in annotated]
+
+
+def render_hash_algorithms(algs):
+    L = ['/-! GENERATED by lib/c16_extract.py from core/src/types/hashalgorithm.rs on every run of the C16 check — do not edit. -/',
+         'namespace Ign.Gen', '',
+         '/-- the variants of `pub enum HashAlgorithm`: (variant, strum `to_string` = cache directory, strum `serialize` = configuration value) -/',
+         'def HASH_ALGORITHMS : List (String × String × String) := [']
+    L += [f'  ({lean_string(v)}, {lean_string(t)}, {lean_string(z)})' + (',' if i < len(algs) - 1 else '') for i, (v, t, z) in enumerate(algs)]
+    L += [']', '', 'end Ign.Gen']
+    return '\n'.join(L) + '\n'
+
+
 def run(chk=None):
+    algs = extract_hash_algorithms()
+    apath = os.path.join(LEAN_DIR, 'XvcIgnore', 'XvcIgnore', 'Gen', 'HashAlgorithms.lean')
+    achanged = write_if_changed(apath, render_hash_algorithms(algs))
+    if chk is not None:
+        chk.extra['translator_hash_algorithms'] = {'generated': os.path.relpath(apath, os.path.dirname(LEAN_DIR)), 'changed': achanged, 'variants': algs}
     sites = extract()
     text = render(sites)
     path = os.path.join(LEAN_DIR, 'XvcIgnore', 'XvcIgnore', 'Gen', 'GitignoreWrites.lean')
